@@ -84,10 +84,52 @@ fn check_decoded(c: &Value, m: &ManifestContent, entries: &[(Vec<u8>, Vec<u8>)],
     Ok(())
 }
 
+/// The same content inside a real signed manifest: `Manifest::decode` (strict and relaxed) must decide as `ManifestContent::take_from`
+/// did, `content()` must pass the same checks, and the object validates under its issuer.
+fn signed_route(sc: &mut crate::sigobj::Ctx, c: &Value, content: &[u8], accepted: bool, entries: &[(Vec<u8>, Vec<u8>)], data: &[u8]) -> Result<(), (String, String)> {
+    use rpki::repository::manifest::Manifest;
+    let case = json!({"kind": "mft", "size": "small", "fam": "v4", "content": content,
+                      "f": {"attrs": "ok", "digest": "ok", "sig": "ok", "sid": "ok", "ee": "ok", "ctattr": "ok", "cover": "ok", "crl": "ok"}});
+    let (bytes, _) = crate::sigobj::assemble(sc, &case);
+    for strict in [true, false] {
+        match Manifest::decode(bytes::Bytes::from(bytes.clone()), strict) {
+            Err(e) => {
+                if accepted {
+                    return Err(("signed:decode".into(), format!("ManifestContent::take_from accepts the content, Manifest::decode(strict={strict}) refuses the signed manifest: {e}")));
+                }
+            }
+            Ok(m) => {
+                if !accepted {
+                    return Err(("signed:accepts-invalid".into(), format!("Manifest::decode(strict={strict}) accepts a signed manifest whose content ManifestContent::take_from refuses")));
+                }
+                check_decoded(c, m.content(), entries, data)?;
+                // the entries as listed
+                let listed: Vec<(Vec<u8>, Vec<u8>)> = m.content().iter().map(|f| (f.file().to_vec(), f.hash().to_vec())).collect();
+                if listed != entries {
+                    return Err(("signed:entries".into(), format!("listed entries {listed:?} differ from the encoded ones")));
+                }
+                if m.content().is_empty() != entries.is_empty() {
+                    return Err(("len".into(), format!("is_empty() = {} with {} entries", m.content().is_empty(), entries.len())));
+                }
+                let base = uri::Rsync::from_str(BASES[0]).unwrap();
+                for ((_, h), (_, hash)) in m.content().iter_uris(&base).zip(entries) {
+                    if h.as_slice() != hash.as_slice() {
+                        return Err(("hash".into(), format!("ManifestHash::as_slice has {} octets, the manifest lists {}", h.as_slice().len(), hash.len())));
+                    }
+                }
+                m.validate_at(&sc.issuer, strict, rpki::repository::x509::Time::now()).map_err(|e| ("signed:validate".to_string(), format!("a correctly signed manifest does not validate (strict={strict}): {e}")))?;
+            }
+        }
+    }
+    Ok(())
+}
+
 pub fn replay(args: &[String]) {
     let cases = read_cases(&args[0]);
     let mut s = Summary::new();
     let data = b"manifest entry data";
+    let mut sc = crate::sigobj::Ctx::new();
+    let mut nth = 0usize;
     for c in &cases {
         match c["op"].as_str().unwrap_or("") {
             "name" => {
@@ -110,6 +152,16 @@ pub fn replay(args: &[String]) {
                                 Err(p) => s.violation("accessor:panic", format!("accessor panicked on decoded manifest listing {:?}: {p}", String::from_utf8_lossy(&name)), case),
                             }
                         }
+                    }
+                    nth += 1;
+                    if nth % 25 == 0 {
+                        let accepted = matches!(guarded(|| Mode::Der.decode(bytes.as_ref(), ManifestContent::take_from)), Ok(Ok(_)));
+                        match guarded(|| signed_route(&mut sc, c, &bytes, accepted, &entries, data)) {
+                            Ok(Ok(())) => {}
+                            Ok(Err((k, w))) => s.violation(&k, w, json!({"case": c, "variant": variant, "signed": true})),
+                            Err(p) => s.violation("accessor:panic", format!("[signed manifest] {p}"), json!({"case": c, "variant": variant, "signed": true})),
+                        }
+                        s.count("signed_manifests", 1);
                     }
                     s.eval_if(name.len() >= 4, &format!("{}|{variant}", c["name"]));
                 }
@@ -141,6 +193,16 @@ pub fn replay(args: &[String]) {
                             Err(p) => s.violation("accessor:panic", p, c.clone()),
                         }
                     }
+                }
+                nth += 1;
+                if nth % 25 == 0 {
+                    let accepted = matches!(guarded(|| Mode::Der.decode(bytes.as_ref(), ManifestContent::take_from)), Ok(Ok(_)));
+                    match guarded(|| signed_route(&mut sc, c, &bytes, accepted, &entries, data)) {
+                        Ok(Ok(())) => {}
+                        Ok(Err((k, w))) => s.violation(&k, w, json!({"case": c, "signed": true})),
+                        Err(p) => s.violation("accessor:panic", format!("[signed manifest] {p}"), json!({"case": c, "signed": true})),
+                    }
+                    s.count("signed_manifests", 1);
                 }
                 s.eval_if(!entries.is_empty(), &format!("{c}"));
             }
